@@ -37,7 +37,8 @@ BOUNDED = {
         unit=P + "bodies:_resolve_reference", where="openapi_python_client/parser/bodies.py",
         statement="a chain of request body references ends in an inline body (then the endpoint has it) or is dangling/"
                   "circular (then no body and a diagnostic); the parser terminates",
-        bound="all reference graphs over 3 named request bodies + a missing target, every start"),
+        bound="all reference graphs over 3 named request bodies + a missing target, every start; the same graphs with "
+              "component names that need percent-escapes in references"),
     "body_media": dict(
         unit=P + "bodies:body_from_data (+ Endpoint.from_data body accounting)", where="openapi_python_client/parser/bodies.py",
         statement="every request media type is handled by the generated function or named in a diagnostic; the operation is "
@@ -94,3 +95,23 @@ def discharge_parallel(rep, kf, contracts, prop, tier, seed):
             tasks.append(task)
     for r in core.run_parallel(tasks):
         rep.merge(r)
+
+
+def engine_b_crosscheck(rep, tier, convert_value=True, models=None):
+    """CPython cross-check of Engine B on concrete inputs (pyvc.crosscheck_b); disagreements make the run exit 3"""
+    from pyvc import crosscheck_b as X
+    from pyvc.engine_b import JSON_POOL
+    parts = []
+    if convert_value:
+        parts.append(("convert_value of the ten scalar kinds on the JSON pool", X.convert_value_crosscheck(JSON_POOL)))
+    for version in (models or []):
+        parts.append((f"generated from_dict/to_dict of the schematic models ({version}) on concrete wire objects",
+                      X.models_crosscheck(version, 3 if tier == "quick" else 40)))
+    info = rep.extra.setdefault("engine_b_crosscheck", [])
+    for what, s in parts:
+        rep.crosscheck["samples"] += s["runs"]
+        bad = s["disagreements"] + s["false_facts"]
+        rep.crosscheck["disagreements"] += bad
+        if bad and "first" not in rep.crosscheck:
+            rep.crosscheck["first"] = {"unit": what, "triple": "engine-b", "input": "", "got": s.get("first") or s.get("first_false_fact")}
+        info.append({"what": what, **{k: v for k, v in s.items() if k not in ("all",)}})
